@@ -783,7 +783,7 @@ META = {
                            "erases that move items between slots; torn or foreign values are model violations.",
                 level_note=_LEVEL_NOTE),
     "C11": dict(design_ref="DESIGN.md 5/C11", technique="runtime monitoring: traversal/erase monitor, per-key WGL oracle with iterator erases as atomic steps, quiescent liveness probe (decidable hang), differential monitor vs std::map",
-                level_text="Iterator traversal with erase(iterator) at arbitrary positions concurrently with lock-free readers and writers waiting for the same buckets; every bucket "
+                level_text="Iterator traversal with erase(iterator) at arbitrary positions (handles obtained by copy elision, move assignment and move construction) concurrently with lock-free readers and writers waiting for the same buckets; every bucket "
                            "must be usable afterwards (probe by a managed thread, hang = violation).",
                 level_note=_LEVEL_NOTE),
     "C08": dict(design_ref="DESIGN.md 5/C08", technique="runtime monitoring: recorded histories under a controlled scheduler + per-key WGL linearizability oracle (set / map with per-insertion value ids) + differential monitor vs std::map / std::set over bounded-exhaustive and long random single-threaded sequences",
@@ -827,9 +827,10 @@ META = {
                            "racing a retiring thread for each reclaimer, and the guard algebra inside the concurrent reclaim protocol; (d) snapshot claims of acquire / "
                            "acquire_if_equal against the recorded value history of the source while other threads keep replacing it.",
                 level_note=_LEVEL_NOTE),
-    "C17": dict(design_ref="DESIGN.md 5/C17", technique="runtime monitoring: allocation census and census of the published hazard pointer / era counts at quiescent points across thread generations + C01/C02 oracles across control-block reuse",
+    "C17": dict(design_ref="DESIGN.md 5/C17", technique="runtime monitoring: allocation census and census of the published hazard pointer / era counts at quiescent points across thread generations + footprint census over thousands of thread generations of one process (dynamic slot arrays) + C01/C02 oracles across control-block reuse",
                 level_text="6-10 generations of short-lived threads per execution with adoption of exited threads' records inside the history; the number of live heap blocks "
-                           "at quiescent points must be independent of the number of threads ever created.",
+                           "at quiescent points must be independent of the number of threads ever created; for the dynamic hazard_pointer / hazard_eras strategies the live heap after "
+                           "every execution of a process (threads that grew their slot arrays and exited) must stay within 4x + 64 KiB of its value after warm-up.",
                 level_note=_LEVEL_NOTE),
     "C04": dict(design_ref="DESIGN.md 5/C04", technique="runtime monitoring: recorded histories under a controlled scheduler + WGL linearizability oracle (FIFO model), heap shadow oracle",
                 level_text="Every generated program is executed for real (real threads, real reclaimers) under seeded hostile schedules with node sizes 1-16 so that "
@@ -837,7 +838,7 @@ META = {
                            "linearizability search. Held = no non-linearizable history, crash, hang or heap error among the executions explored.",
                 level_note=_LEVEL_NOTE),
     "C05": dict(design_ref="DESIGN.md 5/C05", technique="runtime monitoring: recorded histories + WGL oracle (bounded FIFO, in-flight slack, spurious weak failures)",
-                level_text="Bounded queues with capacities 1-8 (several wrap-arounds per history), strong and weak operations mixed, judged by the exact linearizability "
+                level_text="Bounded queues with capacities 1-8 (several wrap-arounds per history), strong and weak operations mixed (vyukov_bounded_queue under both default_to_weak policies), judged by the exact linearizability "
                            "search against a bounded FIFO with the weakest reading of 'full' the property allows.",
                 level_note=_LEVEL_NOTE),
     "C06": dict(design_ref="DESIGN.md 5/C06", technique="runtime monitoring: recorded histories + WGL oracle (k-out-of-order FIFO), recorded random start index (hook H1) + sequential reference-model monitor over long sweeps of large constructions (k*segments around and above 2^16)",
